@@ -99,11 +99,20 @@ let () =
            let wd = Array.init nd (fun _ -> nf ()) in
            let nt = Array.fold_left ( * ) 1 nxp in
            let a = Array.init nt (fun _ -> nf ()) in
-           if nd = 2 then begin
+           if nd = 2 && not (shape_ok2 { px = per.(0); py = per.(1); nxg = z_of_int nxg.(0); nyg = z_of_int nxg.(1); wx = wd.(0); wy = wd.(1) }) then
+             Printf.printf "REFUSED\n"
+           else if nd = 3 && not (shape_ok3 { qx = per.(0); qy = per.(1); qz = per.(2); mxg = z_of_int nxg.(0); myg = z_of_int nxg.(1);
+                        mzg = z_of_int nxg.(2); vx = wd.(0); vy = wd.(1); vz = wd.(2) }) then
+             Printf.printf "REFUSED\n"
+           else if nd = 2 then begin
              let sh = { px = per.(0); py = per.(1); nxg = z_of_int nxg.(0); nyg = z_of_int nxg.(1); wx = wd.(0); wy = wd.(1) } in
              let af = fun2 nxp.(1) a in
              let r = List.map (atimes2 fops sh af) (all_ix2 sh) in
-             Printf.printf "%d %s\n" (List.length r) (hexs r)
+             (* the loop-by-loop model on the flat array, started from an LA full of sentinels *)
+             let aflat = fun k -> let q = int_of_z k in if q >= 0 && q < nt then a.(q) else 0.0 in
+             let la = atimes2_loops fops sh aflat (fun _ -> -7.25) in
+             let rl = List.init nt (fun q -> la (z_of_int q)) in
+             Printf.printf "%d %s | %s\n" (List.length r) (hexs r) (hexs rl)
            end else begin
              let sh = { qx = per.(0); qy = per.(1); qz = per.(2); mxg = z_of_int nxg.(0); myg = z_of_int nxg.(1);
                         mzg = z_of_int nxg.(2); vx = wd.(0); vy = wd.(1); vz = wd.(2) } in
